@@ -31,3 +31,5 @@ uint64_t c05_widen(uint32_t bits)
 }
 
 int c05_sizeof_long_double(void) { return (int)sizeof(long double); }
+int c05_sizeof_float(void) { return (int)sizeof(float); }
+int c05_sizeof_double(void) { return (int)sizeof(double); }
